@@ -43,6 +43,30 @@ __published:
     __make_seq(%(seq)s, get_num_items, get_item);
   };
 };
+class ScEngine {
+__published:
+  ScEngine();
+  int get_power() const;
+};
+class ScRadio {
+__published:
+  ScRadio();
+  int get_channel() const;
+  operator int () const;
+};
+class ScCar : public ScEngine, public ScRadio {
+__published:
+  ScCar();
+  int get_seats() const;
+};
+class ScBook {
+__published:
+  ScBook();
+  const char *get_chapter(int n) const;
+  int find_chapter(const char *title, bool exact) const;
+  const char *rename(const char *from, int which);
+  static const char *format_isbn(long long isbn, int width);
+};
 class Grid {
 __published:
   Grid();
@@ -151,7 +175,7 @@ def run(ck):
             else:
                 h = hdrgen.gen_header(rng, n_classes=rng.randrange(1, 5))
                 hp.write_text(h.text().replace("#endif\n", SCENARIO % {"seq": rng.choice(["get_items", "get_things"])} + "#endif\n"))
-            optsets = [OPTION_SETS[0]] + rng.sample(OPTION_SETS[1:], 2) if quick else OPTION_SETS
+            optsets = [OPTION_SETS[0], OPTION_SETS[7]] + rng.sample(OPTION_SETS[1:7], 1) if quick else OPTION_SETS
             if n >= n_hdr:
                 optsets = [["-c", "-fnames"], ["-python", "-fnames"]]
             for oi, opts in enumerate(optsets):
@@ -173,7 +197,7 @@ def run(ck):
                         bad.append("dangling references: " + impl[2])
                     if impl[3] != "1":
                         bad.append("wrapper indices are not 1..n")
-                    if impl[4] != "wrapper=1 nesting=1 unique=1 seqs=1":
+                    if impl[4] != "wrapper=1 nesting=1 unique=1 seqs=1 this=1":
                         bad.append("links/unique names: " + impl[4])
                     if bad:
                         ck.violation("real-db:%s" % bad[0].split(":")[0], "interrogate %s on %s wrote a database with %s" % (" ".join(opts), hp.name, "; ".join(bad)),
